@@ -51,7 +51,7 @@ def gen_cases(seed, tier):
         cases.append({"cls": "relations", "seed": seed * 1000 + j, "n": 40, "_w": 1})
     for j in range(6 if tier == "quick" else 24):
         cases.append({"cls": "corrmax", "seed": seed * 1000 + j, "k": j, "tier": tier, "_w": 1 if tier == "quick" else 8})
-    for j in range(8 if tier == "quick" else 60):
+    for j in range(16 if tier == "quick" else 120):
         cases.append({"cls": "shift_waveform", "seed": seed * 1000 + j, "_w": 1})
     cases.append({"cls": "parabolic", "seed": seed, "n": 400 if tier == "quick" else 5000, "_w": 1})
     cases.append({"cls": "model", "seed": seed, "_w": 1})
@@ -312,7 +312,21 @@ def run_case(case):
         nsp, ntr, ns = int(rng.integers(5, 30)), int(rng.integers(3, 12)), int(rng.choice([121, 128, 127, 99, 82]))
         amps = np.exp(-0.5 * ((np.arange(ntr) - ntr // 2) / 1.5) ** 2)
         tmpl = -amps[:, None] * ricker(ns, float(rng.uniform(3, 6)))[None, :]
+        if rng.random() < 0.5:
+            # a propagating spike: every trace has its own width and latency, and two traces have almost the same amplitude (the one that is largest
+            # on the sampling grid can change from copy to copy; the delay is still measured on the template's peak trace)
+            wid = rng.uniform(2.5, 6, ntr)
+            lat = np.cumsum(rng.uniform(0.5, 4, ntr)) - 6
+            amps = amps * rng.uniform(0.5, 1.0, ntr)
+            top = int(np.argmax(amps))
+            other = (top + 1) % ntr
+            amps[other] = amps[top] * float(rng.uniform(0.95, 0.99))
+            wid[top], wid[other] = 2.5, 5.0
+            tmpl = np.stack([-amps[j] * ricker(ns, float(wid[j]), c=(ns - 1) / 2 + float(lat[j]) - float(lat[top])) for j in range(ntr)])
+            res.count("propagating_templates")
         applied = rng.uniform(-2, 2, nsp)
+        if rng.random() < 0.5:
+            applied = np.round(applied) + rng.uniform(0.35, 0.65, nsp) * rng.choice([-1, 1], nsp)      # fractional parts near one half
         applied -= np.median(applied)
         applied[np.argsort(np.abs(applied))[0]] = 0.0
         wfs = np.stack([fshift(tmpl, float(s), axis=-1) for s in applied])
